@@ -16,8 +16,21 @@ def check(tier, seed, replay=None):
         c = json.load(open(replay))
         cases = [{"id": c["id"], "prog": c["prog"], "unrolled": c["unrolled"], "expect": c.get("expect", "ok")}]
     else:
-        cases = []
-        for fam in ("one", "enum", "graph", "prod", "logic", "sets", "scope", "mixed", "alias"):
+        # hand-written pairs for index VALUES the generator's integer indices cannot take: an index that evaluates
+        # to -0.0 names the variable of index 0 (computed from a division, from a fractional array, from enumerate)
+        decl = "define\n    x_0, x_1 as Real(0, 5)"
+        cases = [
+            {"id": "hand_negzero_div", "expect": "ok",
+             "prog": "min x_{-(k / 2)} + x_{k + 1}\ns.t.\n    x_{-(i / 2)} >= 1 for i in 0..1\n    x_1 >= 2\nwhere\n    let k = 0\n" + decl,
+             "unrolled": "min x_0 + x_1\ns.t.\n    x_0 >= 1\n    x_1 >= 2\n" + decl},
+            {"id": "hand_negzero_array", "expect": "ok",
+             "prog": "min sum(a in A) { x_{-a} } + x_1\ns.t.\n    x_{-a} >= 1 for a in A\n    x_1 >= 2\nwhere\n    let A = [0.0]\n" + decl,
+             "unrolled": "min x_0 + x_1\ns.t.\n    x_0 >= 1\n    x_1 >= 2\n" + decl},
+            {"id": "hand_negzero_product", "expect": "ok",
+             "prog": "min x_{k * 0} + x_1\ns.t.\n    x_{k * 0} >= 1\n    x_1 >= 2\nwhere\n    let k = 0 - 3\n" + decl,
+             "unrolled": "min x_0 + x_1\ns.t.\n    x_0 >= 1\n    x_1 >= 2\n" + decl},
+        ]
+        for fam in ("one", "enum", "graph", "prod", "logic", "sets", "scope", "mixed", "alias", "agg"):
             cs, g, d = core.gen_cases(SPEC_DIR, "Expand.tla", f"Gen_{fam}.cfg", "exp" + fam, workers=4)
             for i, c in enumerate(cs):
                 c["id"] = f"{fam}_{i}"
